@@ -67,7 +67,7 @@ L6 = [
     'forall(processed, lambda k, v: WS(v))',
     'forall(builtMibs, lambda k, v: WB(v) and k in P1 and k in ghost("gen_by_name") '
     'and same(v[2], ghost("gen_by_name")[k]))',
-    'forall(ghost("gen_by_name"), lambda k, v: k in P1 and k in _done)',
+    'forall(ghost("gen_by_name"), lambda k, v: k in P1 and k in _done and k in builtMibs)',
     'H() or forall(failedMibs, lambda k, v: k in processed and FAILST(processed[k]))',
     'H() or forall(processed, lambda k, v: (FAILST(v) and k in failedMibs) or '
     '(ST(v, "untouched") and k not in P1 and k not in failedMibs))',
@@ -83,6 +83,9 @@ L7 = [
     'and k in ghost("borrow_by_name") and same(v[2], ghost("borrow_by_name")[k]))',
     'forall(ghost("borrow_by_name"), lambda k, v: k in F0)',
     'forall(F0, lambda k, v: k in failedMibs or k in borrowedMibs)',
+    'H() or forall(F0, lambda k, v: k not in ghost("gen_by_name"))',
+    # C19 only_for_failed: a borrower is consulted only for names that have no generated code
+    'H() or forall(ghost("borrow_n"), lambda k, v: k in F0 and k not in ghost("gen_by_name"))',
 ]
 
 # ---------------------------------------------------------------- "needs borrowing" (loops 9-10)
@@ -94,6 +97,8 @@ L9 = [
     'forall(builtMibs, lambda k, v: (k in U1 and same(v, U1[k])) or (k in B0 and same(v, B0[k])))',
     'H() or forall(U1, lambda k, v: k in builtMibs and same(builtMibs[k], v))',
     'H() or forall(B0, lambda k, v: k not in U1)',
+    'H() or forall(ghost("gen_by_name"), lambda k, v: k in U1 and same(U1[k][2], v))',
+    'forall(B0, lambda k, v: k in ghost("borrow_by_name") and same(v[2], ghost("borrow_by_name")[k]))',
     'H() or forall(failedMibs, lambda k, v: k in processed and FAILST(processed[k]))',
     'H() or forall(builtMibs, lambda k, v: k not in failedMibs and '
     '((k in U1 and k not in processed) or (k in B0 and k not in U1 and k in processed and ST(processed[k], "borrowed"))))',
@@ -126,9 +131,17 @@ L12 = [
     '((k in ghost("put_ok") and (ST(processed[k], "compiled") or ST(processed[k], "borrowed"))) or '
     ' (k in ghost("put_failed") and ST(processed[k], "failed") and k not in ghost("put_ok")) or '
     ' (not W() and k not in ghost("put_ok") and (ST(processed[k], "compiled") or ST(processed[k], "borrowed"))))))',
-    'H() or forall(U2, lambda k, v: implies(k not in _done, k not in processed or ST(processed[k], "borrowed")))',
+    'H() or forall(U2, lambda k, v: implies(k not in _done, (k not in processed and k not in PR2) or '
+    '(k in processed and k in PR2 and same(processed[k], PR2[k]) and ST(processed[k], "borrowed"))))',
     'H() or forall(processed, lambda k, v: k in U2 or same(v, PR2[k]))',
     'forall(PR2, lambda k, v: k in processed)',
+    # lemmas about the state at loop entry (constant during the loop) used by the final clauses
+    'H() or forall(PR2, lambda k, v: implies(ST(v, "untouched"), k not in U2 and k not in ghost("gen_by_name")))',
+    'H() or forall(U2, lambda k, v: implies(k in PR2 and ST(PR2[k], "borrowed"), '
+    'k in ghost("borrow_by_name") and same(v[2], ghost("borrow_by_name")[k])))',
+    'H() or forall(U2, lambda k, v: implies(k in _done and k in processed and ST(processed[k], "borrowed"), '
+    'k in PR2 and ST(PR2[k], "borrowed")))',
+    'H() or forall(ghost("gen_by_name"), lambda k, v: k in U2 and same(U2[k][2], v))',
 ]
 
 LOOPS = {
@@ -176,6 +189,17 @@ CONTRACTS = [
                 'C07_text_exact': 'forall(ghost("put_ok"), lambda k, v: k in U2 and same(v, U2[k][2]))',
                 'C07_status_iff_written': 'H() or implies(W(), forall(processed, lambda k, v: '
                                           'iff(k in ghost("put_ok"), ST(v, "compiled") or ST(v, "borrowed"))))',
+                'C07_payload_is_generated_or_borrowed': 'forall(ghost("put_ok"), lambda k, v: '
+                    '(k in ghost("gen_by_name") and same(v, ghost("gen_by_name")[k])) or '
+                    '(k in ghost("borrow_by_name") and same(v, ghost("borrow_by_name")[k])))',
+                'C10_untouched_not_generated_not_written': 'H() or forall(processed, lambda k, v: implies('
+                    'ST(v, "untouched"), k not in ghost("gen_by_name") and count(ghost("puts_n"), k) == 0))',
+                'C19_borrowed_verbatim': 'H() or forall(processed, lambda k, v: implies(ST(v, "borrowed") and '
+                    'k in ghost("put_ok"), same(ghost("put_ok")[k], ghost("borrow_by_name")[k])))',
+                'C19_compiled_never_replaced': 'H() or forall(ghost("gen_by_name"), lambda k, v: implies('
+                    'k in ghost("put_ok"), same(ghost("put_ok")[k], v)))',
+                'C09_ignore_errors_keeps_bad_status': 'H() or forall(PR2, lambda k, v: implies(FAILST(v), '
+                    'k in processed and FAILST(processed[k])))',
             },
         },
         ensures={
